@@ -225,7 +225,7 @@ Lemma idtoken_checks_inv kw d now :
   (exists exp iat, assoc (PS "exp") d = Some (VInt exp) /\ assoc (PS "iat") d = Some (VInt iat) /\
                    (now - eff_skew kw <= exp)%Z /\ (now - eff_skew kw <= iat + eff_storage kw)%Z /\
                    (iat <= now + eff_skew kw)%Z /\ (iat <= exp)%Z) /\
-  (forall n v, kw_nonce kw = Some n -> assoc (PS "nonce") d = Some v -> v = VStr n).
+  (forall n, kw_nonce kw = Some n -> assoc (PS "nonce") d = Some (VStr n)).
 Proof.
   unfold idtoken_checks. intro H.
   apply bind_ok in H as ([] & Hiss & H).
@@ -251,14 +251,15 @@ Proof.
     destruct (now + eff_skew kw <? ia)%Z eqn:E3; try discriminate.
     destruct (ex <? ia)%Z eqn:E4; try discriminate.
     exists ex, ia. apply Z.ltb_ge in E1, E2, E3, E4. repeat split; auto.
-  - intros n v Hn Hv.
+  - intros n Hn.
     destruct (assoc (PS "exp") d) as [[| |ex| | | |]|]; try discriminate.
     destruct (ex <? now - eff_skew kw)%Z; try discriminate.
     destruct (assoc (PS "iat") d) as [[| |ia| | | |]|]; try discriminate.
     destruct (ia + eff_storage kw <? now - eff_skew kw)%Z; try discriminate.
     destruct (now + eff_skew kw <? ia)%Z; try discriminate.
     destruct (ex <? ia)%Z; try discriminate.
-    rewrite Hn, Hv in H. destruct (pyval_eqb (VStr n) v) eqn:E; try discriminate. now apply pyval_eqb_vstr_l.
+    rewrite Hn in H. destruct (assoc (PS "nonce") d) as [v|]; try discriminate.
+    destruct (pyval_eqb (VStr n) v) eqn:E; try discriminate. apply pyval_eqb_vstr_l in E. congruence.
 Qed.
 
 (* ---- hashes ---- *)
@@ -388,8 +389,8 @@ Section SoundFull.
     (exists exp iat, assoc (PS "exp") d = Some (VInt exp) /\ assoc (PS "iat") d = Some (VInt iat) /\
                      (now - eff_skew kw <= exp)%Z /\ (iat <= now + eff_skew kw)%Z /\
                      (now - eff_skew kw <= iat + eff_storage kw)%Z /\ (iat <= exp)%Z) /\
-    (* 6 a nonce claim, if any, equals the nonce argument (the service layer demands its presence) *)
-    (forall n v, kw_nonce kw = Some n -> assoc (PS "nonce") d = Some v -> v = VStr n) /\
+    (* 6 the nonce argument, when given, is present in the token and equal *)
+    (forall n, kw_nonce kw = Some n -> assoc (PS "nonce") d = Some (VStr n)) /\
     (* 7 c_hash / at_hash of a signed token delivered by the authorization endpoint *)
     (ch = true -> t_alg t <> PS "none" ->
        (forall x, code = Some x -> assoc (PS "c_hash") d = Some (VStr (lhash (hash_bits (t_alg t)) x))) /\
